@@ -213,7 +213,7 @@ contract(f"{M_}:_run_manager_from_cli_status", dict(input_path=PathS, output_dir
 contract(f"{M_}:run_manager_from_cli", dict(input_path=PathS, output_directory=OpaqueOf("x"), validate_only=Bool, convert=OpaqueOf("x")),
          raises={"SystemExit": None, "Exception": None},
          exc_ensures={"SystemExit": [("process-exit-status-is-the-computed-status", lambda E: E._exit_status == STATUSF(0))]},
-         ensures=[("never-returns-normally", lambda E: False)],
+         ensures=[("never-returns-normally", lambda E: False)], options={"no_normal_return": True},
          returns=NoneT(), notes="A-CLICK: in standalone mode click turns SystemExit(status) into the process exit status and an uncaught exception into status 1")
 
 # validate_input_file: error count = sum of the section verdicts
